@@ -101,3 +101,16 @@ Proof.
   destruct odd_bin_size_repaired as [A B]. rewrite A, B. reflexivity.
 Qed.
 Print Assumptions C05_odd_bin_size_repaired.
+
+(* TOTAL correctness (Inv/Jitcount_functotal.v, Inv/Jitbin_array_functotal.v): the kernel texts terminate and return the model's value. *)
+From Verif Require Inv.Jitcount_functotal Inv.Jitbin_array_functotal.
+Theorem C05_count_kernel_text_total : forall ts ep B,
+  Forall (fun I => fst I <= snd I) ep -> 0 < B ->
+  exists fuel, run fuel k_jitcount (jitcount_args ts ep B) = Return (count_result (count_binned ts ep B)).
+Proof. exact Jitcount_functotal.k_jitcount_total. Qed.
+Print Assumptions C05_count_kernel_text_total.
+
+Theorem C05_bin_array_kernel_text_total : forall ts vs ep B, 0 < B ->
+  exists fuel, run fuel k__jitbin_array (bin_array_args ts vs ep B) = Return (bin_array_result (bin_sum_cnt ts vs ep B)).
+Proof. exact Jitbin_array_functotal.k__jitbin_array_total. Qed.
+Print Assumptions C05_bin_array_kernel_text_total.
